@@ -249,9 +249,23 @@ def numbers(R, P):
                 if x["k"] == "bin" and x["op"] in ("=", "+=", "*=") and c.show(c.d(x["a"][0])) == "maxVal":
                     stores.append(c.show(x))
     decl = [c.show(c.d(v["init"])).replace(" ", "") for e in c.all_events() if e.kind == "decl" for v in e.node["vars"] if v["n"] == "maxVal" and v.get("init") is not None]
-    ret = c.show(c.returns()[0].node).replace(" ", "") if c.returns() else ""
-    ok = not stores and len(decl) == 1 and "fabs(a)" in decl[0] and "fabs(b)" in decl[0] and not any(ch.isdigit() for ch in decl[0].replace("fabs", ""))
-    ok = ok and "fabs((a-b))<=(maxVal*" in ret and ("2.22044604925031" in ret or "DBL_EPSILON" in ret)
+    # the scale is assigned once (in the declaration or by one plain store) from |a| and |b| alone; the relative test is the
+    # verdict for finite operands - a return that is not it must sit behind a test for a non-finite operand
+    defs = list(decl) + [t_.replace(" ", "").split("=", 1)[1].rstrip(")") for t_ in stores if "+=" not in t_ and "*=" not in t_]
+    ok = len(defs) == 1 and not [t_ for t_ in stores if "+=" in t_ or "*=" in t_] and "fabs(a)" in defs[0] and "fabs(b)" in defs[0] and not any(ch.isdigit() for ch in defs[0].replace("fabs", ""))
+    rel, other_ok = 0, True
+    domc = dominators(c)
+    for r_ in c.returns():
+        ret = c.show(r_.node).replace(" ", "")
+        if "fabs((a-b))<=(maxVal*" in ret and ("2.22044604925031" in ret or "DBL_EPSILON" in ret):
+            rel += 1
+        else:
+            gtxt = [c.show(c.d(c_)) for c_, p_, b_ in RU.guards(c, r_, domc)]
+            prs = c.preds().get(r_.blk, [])
+            via = bool(prs) and all(c.blocks[p_].cond is not None and any(k_ in c.show(c.d(c.blocks[p_].cond)) for k_ in ("isinf", "isnan", "isfinite")) for p_ in prs)
+            other_ok = other_ok and (via or any(("isinf" in t_ or "isnan" in t_ or "isfinite" in t_) for t_ in gtxt))
+    ok = ok and rel == 1 and other_ok
+    ret = ""
     R.check(ok, "NUMBER", "compare_double:purely-relative", "%s: compare_double()" % CJ, "|a-b| <= max(|a|,|b|) * DBL_EPSILON with nothing else deciding the scale",
             "the 'close enough' test is not purely relative: scale %s, later stores %s, test %s" % (decl, stores, ret))
     fm = []
